@@ -1,24 +1,9 @@
 package main
 
-// Concurrent-edges class of property C01: three to six segments of the two operands (or of the
-// members of a UnionMany list) pass through one point c that is a vertex of no operand. c is a lattice
-// or dyadic point; the segments have large-ish coprime lattice directions and end points up to a
-// few hundred, so every pairwise crossing is computed inexactly by the float re-noding and the
-// computed crossings land on different ulp-neighbours of c: the node merging of
-// geom/dcel_node_set.go must identify them. The exact oracle has the true concurrent point.
-//
-// c is a multiple of the bucket width of the node set (512 ulps of the largest ordinate), i.e. it lies
-// on a bucket boundary in x and in y: a crossing computed slightly left of / below c falls into the
-// neighbouring bucket. Which of the eight neighbour relations two computed crossings have is rare to
-// hit by chance (the anti-diagonal ones about once in a thousand configurations), so the generator
-// SEARCHES: it replays the crossing computation of geom/line.go:intersectLine (the model of the float
-// re-noding step the generator is derived from) on candidate triples of segments through c until two
-// computed crossings have the wanted relation; the eight relations are taken in turn.
-
-import (
-	"github.com/peterstace/simplefeatures/geom"
-	"verifharness/lib"
-)
+// Replay of the crossing computation of the float re-noding step (geom/line.go:
+// symmetricLineIntersection / intersectLine, proper crossing branch) and of the bucket assignment of
+// geom/dcel_node_set.go, used by the pencil class (genpencil.go) to SEARCH for and to COUNT the
+// rounding patterns of the computed crossings of concurrent segments.
 
 type fpt struct{ x, y float64 }
 
@@ -35,35 +20,10 @@ func gcd(a, b int) int {
 	return a
 }
 
-// a coprime lattice direction with components up to m, never axis-parallel
-func concDir(r *lib.Rng, m int) (int, int) {
-	for {
-		dx, dy := r.Range(-m, m), r.Range(-m, m)
-		if dx != 0 && dy != 0 && gcd(dx, dy) == 1 {
-			return dx, dy
-		}
-	}
-}
-
-func fline(ps ...fpt) *lib.Node {
-	n := &lib.Node{Kind: lib.KLine, CT: geom.DimXY}
-	for _, p := range ps {
-		n.C = append(n.C, [4]float64{p.x, p.y, 0, 0})
-	}
-	return n
-}
-
-type concGen struct {
-	r    *lib.Rng
-	c    fpt
-	dirs [][2]int // directions already used (up to sign)
-	pre  [][2]fpt // segments found by the search, handed out first
-	preD [][2]int // their directions
-}
-
-// ---- replay of geom/line.go: symmetricLineIntersection / intersectLine (proper crossing branch)
 func fless(a, b fpt) bool { return a.x < b.x || (a.x == b.x && a.y < b.y) }
 
+// computedCrossing: what geom/line.go computes for two properly crossing segments (the pair is
+// canonicalised first: end points of each segment in XY order, then the two segments in order)
 func computedCrossing(s1, s2 [2]fpt) fpt {
 	can := func(s [2]fpt) [2]fpt {
 		if fless(s[1], s[0]) {
@@ -82,7 +42,8 @@ func computedCrossing(s1, s2 [2]fpt) fpt {
 	return fpt{(b.x-a.x)*p + a.x, (b.y-a.y)*p + a.y}
 }
 
-// bucket offset of a computed crossing relative to the bucket of c (c lies on the bucket boundary)
+// bucket offset of a computed crossing relative to the bucket of c (c is a multiple of the bucket
+// width in both ordinates, i.e. it is the lower left corner of its own bucket)
 func bucketOff(c, q fpt) [2]int {
 	o := [2]int{0, 0}
 	if q.x < c.x {
@@ -92,175 +53,4 @@ func bucketOff(c, q fpt) [2]int {
 		o[1] = -1
 	}
 	return o
-}
-
-var neighbourRelations = [8][2]int{{1, -1}, {-1, 1}, {-1, -1}, {1, 1}, {-1, 0}, {1, 0}, {0, -1}, {0, 1}}
-
-// search looks for three segments through c two of whose computed pairwise crossings lie in buckets
-// with the wanted relation; it reports whether it found them (otherwise any triple is kept)
-func (g *concGen) search(want [2]int, tries int) bool {
-	for t := 0; t < tries; t++ {
-		g.dirs = g.dirs[:0]
-		var segs [][2]fpt
-		for len(segs) < 3 {
-			a, b := g.through()
-			segs = append(segs, [2]fpt{a, b})
-		}
-		var offs [][2]int
-		for i := 0; i < 3; i++ {
-			for j := i + 1; j < 3; j++ {
-				offs = append(offs, bucketOff(g.c, computedCrossing(segs[i], segs[j])))
-			}
-		}
-		for _, p := range offs {
-			for _, q := range offs {
-				if q[0]-p[0] == want[0] && q[1]-p[1] == want[1] {
-					g.pre = segs
-					g.preD = append([][2]int(nil), g.dirs...)
-					return true
-				}
-			}
-		}
-	}
-	g.pre = nil
-	return false
-}
-
-func (g *concGen) newDir() (int, int) {
-	for {
-		dx, dy := concDir(g.r, 7)
-		ok := true
-		for _, d := range g.dirs {
-			if d[0]*dy-d[1]*dx == 0 { // parallel
-				ok = false
-			}
-		}
-		if ok {
-			g.dirs = append(g.dirs, [2]int{dx, dy})
-			return dx, dy
-		}
-	}
-}
-
-// the next segment through c: one found by the search, else a fresh one
-func (g *concGen) next() (fpt, fpt) {
-	if len(g.pre) > 0 {
-		s := g.pre[0]
-		g.dirs = append(g.dirs, g.preD[0])
-		g.pre, g.preD = g.pre[1:], g.preD[1:]
-		return s[0], s[1]
-	}
-	return g.through()
-}
-
-// a segment through c, c strictly inside it
-func (g *concGen) through() (fpt, fpt) {
-	dx, dy := g.newDir()
-	s, t := g.r.Range(5, 40), g.r.Range(5, 40)
-	return fpt{g.c.x - float64(s*dx), g.c.y - float64(s*dy)}, fpt{g.c.x + float64(t*dx), g.c.y + float64(t*dy)}
-}
-
-// a line string with one segment through c (sometimes continued by a bend away from c)
-func (g *concGen) line() *lib.Node {
-	a, b := g.next()
-	if g.r.Chance(1, 3) {
-		return fline(a, b, fpt{b.x + float64(g.r.Range(-20, 20)), b.y + float64(g.r.Range(1, 20))})
-	}
-	return fline(a, b)
-}
-
-// a triangle (or quadrilateral) with one edge through c
-func (g *concGen) poly() *lib.Node {
-	for try := 0; try < 50; try++ {
-		a, b := g.next()
-		d := g.dirs[len(g.dirs)-1]
-		// apex on one side of the edge: c + u * normal + v * direction
-		nx, ny := -d[1], d[0]
-		if g.r.Bool() {
-			nx, ny = -nx, -ny
-		}
-		u, v := g.r.Range(2, 12), g.r.Range(-6, 6)
-		apex := fpt{g.c.x + float64(u*nx+v*d[0]), g.c.y + float64(u*ny+v*d[1])}
-		n := &lib.Node{Kind: lib.KPoly, CT: geom.DimXY}
-		if g.r.Chance(1, 3) {
-			apex2 := fpt{apex.x + float64(d[0]), apex.y + float64(d[1])}
-			n.Kids = []*lib.Node{fline(a, b, apex2, apex, a)}
-		} else {
-			n.Kids = []*lib.Node{fline(a, b, apex, a)}
-		}
-		if valid(n) {
-			return n
-		}
-		g.dirs = g.dirs[:len(g.dirs)-1]
-	}
-	return g.line()
-}
-
-// an operand with k segments through c: a line bundle, a polygon, or a polygon with lines
-func (g *concGen) operand(k int) (*lib.Node, string) {
-	switch {
-	case k == 1 && g.r.Bool():
-		return g.poly(), "poly"
-	case k == 1:
-		return g.line(), "line"
-	case g.r.Chance(1, 2):
-		n := &lib.Node{Kind: lib.KMLine, CT: geom.DimXY}
-		for i := 0; i < k; i++ {
-			n.Kids = append(n.Kids, g.line())
-		}
-		return n, "bundle"
-	default:
-		n := &lib.Node{Kind: lib.KColl, CT: geom.DimXY}
-		n.Kids = append(n.Kids, g.poly())
-		for i := 1; i < k; i++ {
-			n.Kids = append(n.Kids, g.line())
-		}
-		return n, "poly+lines"
-	}
-}
-
-func newConcGen(r *lib.Rng, want int) (*concGen, bool) {
-	g := &concGen{r: r}
-	g.c = fpt{float64(r.Range(-8, 8)), float64(r.Range(-8, 8))}
-	switch r.Intn(4) {
-	case 0: // half-integer point
-		g.c.x += 0.5
-		g.c.y += 0.5
-	case 1: // dyadic point
-		g.c.x += float64(r.Range(1, 7)) / 8
-		g.c.y += float64(r.Range(1, 7)) / 8
-	}
-	found := g.search(neighbourRelations[want%8], 6000)
-	g.dirs = g.dirs[:0]
-	return g, found
-}
-
-// concPair: the operands share the concurrent point: 3..6 segments through it in total
-func concPair(r *lib.Rng, want int) (*lib.Node, *lib.Node, string, bool) {
-	g, found := newConcGen(r, want)
-	total := r.Range(3, 6)
-	ka := r.Range(1, total-1)
-	na, sa := g.operand(ka)
-	nb, sb := g.operand(total - ka)
-	return na, nb, sa + "x" + sb, found
-}
-
-// concList: a UnionMany list whose members each have one segment through c (at most one polygon,
-// so that no two areal members of the collection overlap)
-func concList(r *lib.Rng, want int) ([]*lib.Node, bool) {
-	g, found := newConcGen(r, want)
-	k := r.Range(3, 6)
-	out := make([]*lib.Node, 0, k)
-	polyAt := -1
-	if r.Bool() {
-		polyAt = r.Intn(k)
-	}
-	for i := 0; i < k; i++ {
-		if i == polyAt {
-			out = append(out, g.poly())
-		} else {
-			out = append(out, g.line())
-		}
-	}
-	return out, found
 }
